@@ -226,6 +226,17 @@ def run_case(case, ctx, acc):
                     p0 = g0s.get(pkey)
                     if p0 is not None and p0['type'] != 'ION' and reskey_of(p0) not in listed:
                         v.append(('coulomb-from-unlisted', '%s has Coulomb determinant %r from unlisted %s' % (k, val, pkey)))
+                # (2b) an unlisted group that is the hydrogen-bond partner of a listed one keeps its own (non-iterative) hydrogen bonds
+                # with other unlisted residues: they decide the pKa it enters the iterative treatment of the listed group with
+                if reskey_of(g) not in listed and g0['dets']['sidechain'] and listed:
+                    partner_of_listed = any(g0s.get(pk_) is not None and reskey_of(g0s[pk_]) in listed for pk_, _, _ in g0['dets']['sidechain'])
+                    if partner_of_listed:
+                        have = {x[0] for x in g['dets']['sidechain']}
+                        for pkey, lab, val in g0['dets']['sidechain']:
+                            p0 = g0s.get(pkey)
+                            if (p0 is not None and reskey_of(p0) not in listed and pkey not in have
+                                    and params.interaction_matrix.get_value(g0['type'], p0['type']) == 'N' and not g0['cov_coupled'] and not p0['cov_coupled']):
+                                v.append(('unlisted-partner-loses-its-hydrogen-bonds', '%s (partner of a listed group) lost %r from unlisted %s' % (k, val, pkey)))
                 # (3) environment terms of listed groups unchanged
                 if g['titratable']:
                     for f in ('num_volume', 'buried', 'energy_volume', 'energy_local', 'num_local'):
